@@ -32,6 +32,25 @@ def related(sid, patch):
     return sorted(p for p in out if p in props)
 
 
+DEPS = {}
+def tu_deps():
+    """repo headers every E1 driver TU includes (clang -M on the unchanged tree), cached for the run"""
+    global DEPS
+    if DEPS: return DEPS
+    cache = "/var/tmp/benign_tu_deps.json"
+    if os.path.exists(cache) and os.path.getmtime(cache) > max(os.path.getmtime(p) for p in glob.glob("/verif/obligations/*")):
+        DEPS = json.load(open(cache)); return DEPS
+    tus = sorted(set(c["tu"] for p in registry.PROPS.values() for c in p.get("e1", [])))
+    def dep(tu):
+        r = subprocess.run(["clang++", "-std=gnu++17", "-M", "-w", "-DNMTOOLS_VERIF", "-DNDEBUG", "-I/repo/include", "-I/verif/obligations", "/verif/obligations/" + tu], capture_output=True, text=True)
+        fs = set(x for x in r.stdout.replace("\\\n", " ").split() if x.startswith("/repo/include/"))
+        return tu, sorted(f[len("/repo/"):] for f in fs)
+    with cf.ThreadPoolExecutor(6) as ex:
+        DEPS = dict(ex.map(dep, tus))
+    json.dump(DEPS, open(cache, "w"))
+    return DEPS
+
+
 def one(pd):
     sid = os.path.basename(pd); patch = os.path.join(pd, "patch.diff")
     scratch = "/var/tmp/benign_%s_%d" % (sid, os.getpid()); shutil.rmtree(scratch, ignore_errors=True); os.makedirs(scratch)
@@ -39,10 +58,12 @@ def one(pd):
     if r.returncode:
         shutil.rmtree(scratch, ignore_errors=True); return sid, dict(applies=False, err=(r.stdout + r.stderr)[-300:])
     run = related(sid, patch) if related_only else props
-    res = dict(applies=True, checks={}, ran=run)
+    files = [l[6:].strip() for l in open(patch) if l.startswith("+++ b/")]
+    skip = [tu for tu, d in tu_deps().items() if not any(f in d for f in files)]
+    res = dict(applies=True, checks={}, ran=run, e1_tus_reanalysed=len(tu_deps()) - len(skip))
     for p in run:
         c = subprocess.run(["python3", "/verif/check.py", p, "--tier", "quick"], capture_output=True, text=True,
-                           env=dict(os.environ, VERIF_REPO=scratch, VERIF_JOBS="4"))
+                           env=dict(os.environ, VERIF_REPO=scratch, VERIF_JOBS="4", VERIF_SKIP_E1_TUS=",".join(skip)))
         if c.returncode:
             lines = c.stdout.splitlines()
             res["checks"][p] = dict(exit=c.returncode, reports=[l.strip()[:300] for l in lines if l.strip().startswith("->") or "analysis broken" in l or "BROKEN" in l][:6])
@@ -57,5 +78,5 @@ with cf.ThreadPoolExecutor(jobs) as ex:
     for sid, res in ex.map(one, dirs):
         out[sid] = res
         bad = res.get("checks")
-        print(sid, "does not apply" if not res["applies"] else ("SILENT (%s)" % ",".join(res["ran"]) if not bad else "ALARM " + json.dumps(bad)[:600]), flush=True)
+        print(sid, "does not apply" if not res["applies"] else ("SILENT (%d checks, %d E1 TUs depend on the edited file)" % (len(res["ran"]), res["e1_tus_reanalysed"]) if not bad else "ALARM " + json.dumps(bad)[:600]), flush=True)
         json.dump(out, open(os.path.join(root, "screen.json"), "w"), indent=1)
